@@ -20,7 +20,7 @@ func init() {
 		Explanation: "Decided: (R1) the system status is read and written only under its mutex; (R2) no call made while a mutex field is held reaches an acquisition of the same field along synchronous call paths " +
 			"(not crossing a Mailbox.Enqueue dispatch) and the module's lock-order graph is acyclic; (R3) Start/Stop move the status only ready→started→stopped, the read that decides a transition and its store lie in one critical section (no lock operation between them), every other state returns the documented error and the caller returns it before any effect; " +
 			"(R4) every blocking wait synchronously reachable from Stop sits in a select with a timer case; (R5) the stopping path poison-kills the root and cancels the system context, Start spawns one goroutine that waits for context cancellation and calls the stop routine; " +
-			"(R6) the guard closes the stop signal only when it handles the OnKilled that names itself. (R7) the remote send closure aborts once the system context is cancelled, so a send in its retry loop does not hold up Stop. (R8) the work of Stop is serialised with the start-up: a lifecycle mutex is taken by Start in the same critical section of the status lock in which the status is set, held across the Run of the start-up chain and released on every path after it, and the stop routine kills the root and cancels the context only under that mutex — a Stop that passes its status check while Start is still running waits and then stops everything Start created. (R9) every mutex acquisition in the module is released on every path to the function's exit (explicitly, by a deferred release, or by the single caller a lock is handed to): no call can block forever on a leaked lock. NOT decided: that actors terminate within the timeout, goroutine quiescence after Stop at run time.",
+			"(R6) the guard closes the stop signal only when it handles the OnKilled that names itself. (R7) the remote send closure aborts once the system context is cancelled, so a send in its retry loop does not hold up Stop. (R8) the work of Stop is serialised with the start-up: a lifecycle mutex is taken by Start in the same critical section of the status lock in which the status is set, held across the Run of the start-up chain and released on every path after it, and the stop routine kills the root and cancels the context only under that mutex — a Stop that passes its status check while Start is still running waits and then stops everything Start created. (R9) every mutex acquisition in the module is released on every path to the function's exit (explicitly, by a deferred release, or by the single caller a lock is handed to): no call can block forever on a leaked lock. (R10 = C04.R5) a dying actor's pending asks are completed before its OnKill handler runs; (R11 = C14.R12) the two halves of the handshake arm and clear their deadlines alike. NOT decided: that actors terminate within the timeout, goroutine quiescence after Stop at run time.",
 		Assumptions: []string{"locks are identified by struct field (instance-insensitive)", "third-party code (go-quartz) does not block Stop: treated by summary"},
 		Rules: []Rule{
 			{ID: "C07.R1", Min: 4, Desc: "status only under statusLock", Fn: c07StatusLock},
@@ -31,6 +31,8 @@ func init() {
 			{ID: "C07.R7", Min: 1, Desc: "a remote send in its retry loop aborts once the system context is cancelled, so Stop is not held up by an unreachable peer (part of C14.R4)", Fn: c14StopAborts},
 			{ID: "C07.R8", Min: 3, Desc: "the work of Stop is serialised with the start-up: one lock taken with the status flip in Start, held across the start-up chain, taken by stop before it looks at what Start creates", Fn: c07StartStopSerialised},
 			{ID: "C07.R9", Min: 1, Desc: "every mutex acquisition is released on every path (no call can block forever on a leaked lock)", Fn: lockPairing},
+			{ID: "C07.R10", Min: 4, Desc: "a dying actor's pending asks are completed before its OnKill handler runs, so a handler waiting on one cannot block the termination (C04.R5)", Fn: c04AskerDeath},
+			{ID: "C07.R11", Min: 1, Desc: "the two halves of the handshake treat their deadlines alike, so no connection is left with a live reader and a dead writer that Stop has to wait for (C14.R12)", Fn: c14HandshakeDeadlines},
 			{ID: "C07.R6", Min: 1, Desc: "guard signal closed only for the root's own OnKilled", Fn: c07GuardSignal},
 		},
 	})
